@@ -17,6 +17,7 @@ import (
 
 	"github.com/gofiber/utils/v2"
 	"github.com/google/uuid"
+	"github.com/valyala/fasthttp"
 )
 
 // routeParser holds the path segments and param names
@@ -135,6 +136,9 @@ func RoutePatternMatch(path, pattern string, cfg ...Config) bool {
 		config = cfg[0]
 	}
 
+	if config.UnescapePath {
+		path = string(fasthttp.AppendUnquotedArg(nil, []byte(path)))
+	}
 	if path == "" {
 		path = "/"
 	}
@@ -158,6 +162,9 @@ func RoutePatternMatch(path, pattern string, cfg ...Config) bool {
 	// Strict routing, remove trailing slashes
 	if !config.StrictRouting && len(patternPretty) > 1 {
 		patternPretty = utils.TrimRight(patternPretty, '/')
+	}
+	if !config.StrictRouting && len(path) > 1 {
+		path = utils.TrimRight(path, '/')
 	}
 
 	parser, _ := routerParserPool.Get().(*routeParser) //nolint:errcheck // only contains routeParser
